@@ -96,6 +96,10 @@ class Unserialisable(Exception):
     pass
 
 
+class InfiniteTolerance(Exception):
+    """the attached netlist installed the class-wide tolerance `inf` (repaired by fixes/C01_netlist_infinite_tolerance.diff)."""
+
+
 def ser_tree(t, mode: str) -> str:
     if isinstance(t, bool):
         return "n " + sc(1 if t else 0, mode)
@@ -350,7 +354,13 @@ class Run:
                     raise Unserialisable()       # any other exception of the netlist reader is C05's subject
             self.st0 = get_state()
             if self.st0 is not None and not (math.isfinite(self.st0[0]) and math.isfinite(self.st0[1])):
-                raise Unserialisable()           # a netlist of terminals only proposes the tolerance inf: outside the model
+                # a netlist of terminals only installed the tolerance inf: the defect repaired by
+                # fixes/C01_netlist_infinite_tolerance.diff (the model describes the repaired code: tolerance left undefined).
+                # Until that repair is recorded the case is set aside; afterwards it is judged like any other.
+                if not (os.environ.get("VERIF_C01_INFTOL") == "1" or
+                        any(str(k.get("id", "")).replace("_", "-") == "C01-netlist-infinite-tolerance" for k in load_known())):
+                    raise Unserialisable()
+                raise InfiniteTolerance()
             self.src = src_tokens(stream, mode)
             if isinstance(stream, str):
                 try:
@@ -451,21 +461,47 @@ def picks_from(run: Run, grid_reply: str, grounds=None) -> str | None:
             return all(rows[r][c] == "0" for r in range(r0, r1) for c in range(c0, c1))
         except IndexError:
             return False
-    out = []
+    cands = []
     for g in grounds:
         cs = spans_of(xs, conv(g.center.x), conv(g.shape.w))
         rs = spans_of(ys, conv(g.center.y), conv(g.shape.h))
-        (c0, c1), (r0, r1) = cs[0], rs[0]
-        if len(cs) * len(rs) > 1:
-            for (a0, a1) in cs:
-                hit = next(((b0, b1) for (b0, b1) in rs if free(b0, b1, a0, a1)), None)
-                if hit is not None:
-                    (c0, c1), (r0, r1) = (a0, a1), hit
-                    break
-        for r in range(r0, min(r1, len(rows))):
-            for c in range(c0, min(c1, len(rows[r]))):
-                rows[r][c] = "1"
-        out.append(f"{r0} {r1 - 1} {c0} {c1 - 1}")
+        cands.append([(r0, r1, c0, c1) for (c0, c1) in cs for (r0, r1) in rs])
+    chosen = [c[0] for c in cands]
+    if any(len(c) > 1 for c in cands) and rows:
+        # several index rectangles reproduce some reported rectangle bit for bit: take an assignment in which every pick is
+        # free when it is made (depth-first; a few candidates per region), preferring one that leaves no free cell
+        budget = [4000]
+        best = [None]
+
+        def dfs(k, occ, acc):
+            if budget[0] <= 0:
+                return False
+            budget[0] -= 1
+            if k == len(cands):
+                if best[0] is None:
+                    best[0] = list(acc)
+                full = all(occ[r][c] == "1" for r in range(len(occ)) for c in range(len(occ[r])))
+                if full:
+                    best[0] = list(acc)
+                return full
+            for (r0, r1, c0, c1) in cands[k]:
+                try:
+                    ok = all(occ[r][c] == "0" for r in range(r0, r1) for c in range(c0, c1))
+                except IndexError:
+                    ok = False
+                if not ok:
+                    continue
+                occ2 = [list(row) for row in occ]
+                for r in range(r0, r1):
+                    for c in range(c0, c1):
+                        occ2[r][c] = "1"
+                if dfs(k + 1, occ2, acc + [(r0, r1, c0, c1)]):
+                    return True
+            return False
+        dfs(0, [list(row) for row in rows], [])
+        if best[0] is not None:
+            chosen = best[0]
+    out = [f"{r0} {r1 - 1} {c0} {c1 - 1}" for (r0, r1, c0, c1) in chosen]
     return f"{len(out)}" + "".join(" " + p for p in out)
 
 
@@ -819,6 +855,18 @@ def make_case(rng, mode: str, max_cells: int, max_regions: int, allow_netlist=Tr
         else:
             regions.append(ent + [rng.choice(TAGS)])
     W, H = xs[-1], ys[-1]
+    if allow_netlist and rng.random() < 0.2:
+        # pin-like fixed squares (FloorSet writes its terminals as 1e-3 fixed squares) in the middle of free cells
+        covered = {(r, c) for (r0, r1, c0, c1) in chosen for r in range(r0, r1) for c in range(c0, c1)}
+        free_cells = [(r, c) for r in range(ny) for c in range(nx) if (r, c) not in covered]
+        rng.shuffle(free_cells)
+        for (r, c) in free_cells[:rng.randint(1, 2)]:
+            # exact stream: a dyadic fraction of the grid step, so that centre ± side/2 stays exactly representable
+            side = step / 2 ** rng.choice([10, 16, 20, 24]) if mode == "Q" else \
+                rng.choice([Fr(1, 10 ** 3), Fr(1, 10 ** 5), Fr(1, 10 ** 6), Fr(1, 10 ** 9)])
+            cw, ch = xs[c + 1] - xs[c], ys[r + 1] - ys[r]
+            if side * 4 < min(cw, ch):
+                fixed.append([(xs[c] + xs[c + 1]) / 2, (ys[r] + ys[r + 1]) / 2, side, side])
     hard, soft = [], 0
     if allow_netlist and rng.random() < 0.3:
         # movable macros anywhere (also over blockages / regions / sticking out of the die): irrelevant to the die
@@ -1130,6 +1178,19 @@ def corpus(mode: str) -> list[dict]:
            "S1: {area: 4, rectangles: [[5,5,2,2]]}, M2: {fixed: true, rectangles: [8,5.5,2,1]}}\nNets: [[H1, S1, 2], [M1, M2]]\n")
     out.append({"mode": mode, "doc": d7, "netlist": nl2, "pre": None, "family": "corpus", "shape": "corpus", "kind": "valid",
                 "size": 6, "exact": None, "fixed_expect": [["2", "7", "2", "2"], ["2", "11/2", "2", "1"], ["8", "11/2", "2", "1"]]})
+    AUDIT4 = {'doc': 'width: 300000.3\nheight: 200000.2\nregions: [[100000.1, 85000.085, 160000.16, 90000.09, "#"], [160000.16, 165000.165, 280000.28, 70000.07, \'#\'], [10000.01, 100000.1, 20000.02, 180000.18, \'#\']]\n', 'netlist': 'Modules: {H0: {hard: true, rectangles: [[160000.16, 65000.065, 280000.28, 130000.13]]}, S1: {area: 400000800.0004, rectangles: [[20000.02, 40000.04, 20000.02, 20000.02]]}, S0: {area: 5}, F0: {fixed: true, rectangles: [240000.24, 20000.02, 120000.12, 40000.04]}, T0: {terminal: true, center: [300000.3, 100000.1]}}\nNets: [[S0, T0], [S1, S0, 4]]\n', 'as': 'tree'}
+    if mode == "F":
+        # audit 4, row 2: a netlist tolerance (2e-12) below one ulp of the coordinates (5.8e-11): grid lines one ulp apart, sliver
+        # ground regions; several index rectangles reproduce a reported region bit for bit (pick translation must search)
+        out.append({"mode": mode, "doc": AUDIT4["doc"], "netlist": AUDIT4["netlist"], "pre": None, "family": "corpus",
+                    "shape": "corpus", "kind": "sub-ulp-tolerance", "size": 4, "exact": None, "as": AUDIT4["as"]})
+    # netlists of terminals only (no rectangle, no area): no tolerance proposed, no fixed region
+    for nlp in ["Modules: {T: {terminal: true, center: [1, 1]}}\nNets: []\n",
+                "Modules: {P0: {terminal: true}, P1: {terminal: true, fixed: true, center: [0, 2]}}\nNets: [[P0, P1]]\n"]:
+        for dd in ["4x4", d7]:
+            out.append({"mode": mode, "doc": dd, "netlist": nlp, "pre": None, "family": "corpus", "shape": "corpus",
+                        "kind": "valid", "size": 1, "exact": exact_from_text(dd, None) if dd != "4x4" else None,
+                        "fixed_expect": []})
     # netlists rejected by their own reader: the die is never constructed
     for bad in ["Modules: {M1: {fixed: true, rectangles: [[2,7,2,2], [3,7,2,2]]}}\n",
                 "Modules: {M1: {fixed: true, hard: true, rectangles: [[2,7,2,2]]}}\n",
@@ -1189,6 +1250,11 @@ def process(ctx: Ctx, cases: list[dict]) -> None:
         try:
             run = Run(case)
         except Unserialisable:
+            continue
+        except InfiniteTolerance:
+            ctx.spec_fail("die_complete:netlist-installs-infinite-tolerance", case,
+                          {"why": "Netlist(...) of terminals only set the class-wide tolerance to inf; every die built for it is rejected"},
+                          case.get("size", 0))
             continue
         runs.append(run)
     # round 1: the model's grid for every accepted document (to translate ground rectangles into picks) — computed by the
